@@ -4,6 +4,7 @@ import BqVerif.Proofs.QasmPrec
 import BqVerif.Proofs.QasmStrip
 import BqVerif.Proofs.QasmSubst
 import BqVerif.Proofs.QasmInline
+import BqVerif.Proofs.QasmPrintParse
 import BqVerif.Proofs.QasmWitness
 import BqVerif.Generated.QasmTable
 /-! # C17 — OpenQASM 2 import/export preserves the program and agrees with Qiskit
@@ -244,6 +245,35 @@ theorem C17_if_witness :
     (decodeToks intArith tinyTable (hdrToks ++ qregToks "q" 1 ++ [.id "h"] ++
         qb "q" 0 ++ [.sym ";"])).map Decoded.summary = hOnQ0 := by
   constructor <;> decide
+
+/-! ## C17_print_parse — the writer's format is read back -/
+
+/-- **Round trip of the writer's statement format through the reader** (tokens): if every
+line `name(p…) q[i],…;` names a row of the table with matching arities, distinct qubits
+inside the `N`-qubit register and finite printed parameters, then reading the program the
+writer emits (`OPENQASM 2.0; include "qelib1.inc"; qreg q[N];` + the lines) gives exactly the
+operations `exp` — same gates, same locations, parameters = the values of the printed
+literals (`C17_print_parse_param`).  `lex (printProgram n ops) = programToks n ops` is
+checked by the driver on every circuit the run prints. -/
+theorem C17_print_parse {V : Type} (A : Arith V) (table : List BuiltinDef) (n : Nat)
+    (hn : 0 < n) (ops : List POp) (exp : List (Op V)) (h : ReadsAll A table ops exp)
+    (hr : ∀ o ∈ ops, ∀ q ∈ o.loc, q < n) :
+    decodeToks A table (programToks n ops) = some ⟨n, [], exp⟩ :=
+  decodeToks_programToks A table n hn ops exp h hr
+
+/-- the parameter read back is the value of the printed decimal (sign included) -/
+theorem C17_print_parse_param {V : Type} (A : Arith V) (p : PLit) :
+    evalQ A (PLit.qe p) =
+      (parsePyLit p.text).map fun me =>
+        if p.neg then A.neg (A.ofLit me.1 me.2) else A.ofLit me.1 me.2 :=
+  evalQ_lit A p
+
+example : ReadsAll intArith tinyTable
+    [⟨"rz", [⟨true, "2"⟩], [1]⟩, ⟨"cx", [], [0, 1]⟩]
+    [.prim "RZGate" [1] [-2], .prim "CNOTGate" [0, 1] []] :=
+  .cons ⟨by decide, by decide, ⟨"rz", 1, 1, "RZGate", 1, 1⟩, [-2], rfl, rfl, rfl, rfl, rfl⟩
+    (.cons ⟨by decide, by decide, ⟨"cx", 0, 2, "CNOTGate", 0, 2⟩, [], rfl, rfl, rfl, rfl, rfl⟩
+      .nil)
 
 /-! ## C17_gate_table — (B): the live table, regenerated on every run -/
 
